@@ -531,6 +531,19 @@ theorem world_instructions_run_at_accrued_values (c : Ctx) :
     obtain ⟨b, i, s, x', hb, _⟩ := (close_ok h).core
     exact ⟨b, hb⟩
 
+/-- **world_accrue_crank_spec**: the permissionless `lending_pool_accrue_bank_interest` is `accrue_interest` on a bank of the group
+    passed and nothing else: anyone can bring any bank up to date at any time, and doing so changes the books exactly as the
+    accrual inside any other instruction would (so the theorems about `accrue_interest` — monotone, conserving, idempotent at one
+    timestamp — speak about the crank too) -/
+theorem world_accrue_crank_spec {c : Ctx} {b : Bank} (h : World.accrueIx c = .ok b) :
+    c.b.group = c.g.key ∧ accrueInterest c.b.books c.b.ir c.now = .ok b := by
+  unfold World.accrueIx at h
+  obtain ⟨_, hc, h⟩ := Res.bind_ok h
+  have hc' := runChecks_ok hc
+  simp only [checks, List.forall_mem_cons, List.not_mem_nil, false_imp_iff, implies_true, and_true] at hc'
+  simp [evalChk, Ctx.env] at hc'
+  exact ⟨hc', h⟩
+
 end whole_instructions
 
 end Mfi.Props.C06
